@@ -1,6 +1,8 @@
 package swagen
 
 import (
+	"encoding/json"
+
 	"github.com/getkin/kin-openapi/openapi3"
 	"github.com/gopher-fleece/gleece/v2/definitions"
 	"github.com/gopher-fleece/gleece/v2/generator/swagen/swagen30"
@@ -119,3 +121,73 @@ func vhC20Schemes() {
 }
 
 func vh_C20_schemes_Q() { vhC20Schemes() }
+
+// C20: info and servers of the configuration are copied literally into the document of either version
+// (read back from the bytes GenerateSpec returns; generations refused by a library are not of interest here)
+type vhInfoDoc struct {
+	Openapi string `json:"openapi"`
+	Info    struct {
+		Title          string `json:"title"`
+		Description    string `json:"description"`
+		Version        string `json:"version"`
+		TermsOfService string `json:"termsOfService"`
+		License        *struct {
+			Name string `json:"name"`
+			URL  string `json:"url"`
+		} `json:"license"`
+		Contact *struct {
+			Name  string `json:"name"`
+			Email string `json:"email"`
+			URL   string `json:"url"`
+		} `json:"contact"`
+	} `json:"info"`
+	Servers []struct {
+		URL string `json:"url"`
+	} `json:"servers"`
+}
+
+func vhC20Info(version string) {
+	info := definitions.OpenAPIInfo{
+		Title:          "T" + symxString("title", 0, 2, "ab "),
+		Description:    symxString("description", 0, 1, "d."),
+		Version:        "1." + symxString("version", 1, 1, "0123"),
+		TermsOfService: "https://t/" + symxString("tos", 0, 1, "xy"),
+	}
+	hasLicense, hasContact := symxBool("license"), symxBool("contact")
+	if hasLicense {
+		info.License = &definitions.OpenAPILicense{Name: "L" + symxString("license.name", 0, 1, "mp"), URL: "https://l/" + symxString("license.url", 0, 1, "xy")}
+	}
+	if hasContact {
+		info.Contact = &definitions.OpenAPIContact{Name: "N" + symxString("contact.name", 0, 1, "mp"), Email: symxString("contact.email", 1, 1, "uv") + "@e.io", URL: "https://c/" + symxString("contact.url", 0, 1, "xy")}
+	}
+	base := "https://h" + symxString("base", 0, 2, "/v1")
+	cfg := &definitions.OpenAPIGeneratorConfig{OpenAPI: version, BaseURL: base, Info: info}
+	defs := []definitions.ControllerMetadata{{Name: "Ctl", Tag: "T", RestMetadata: definitions.RestMetadata{Path: "/c"},
+		Routes: []definitions.RouteMetadata{{OperationId: "op", HttpVerb: definitions.HttpGet, RestMetadata: definitions.RestMetadata{Path: "/r"},
+			Responses: vhErrorOnly(), ResponseSuccessCode: 204, ResponseDescription: "ok"}}}}
+	models := &definitions.Models{Structs: []definitions.StructMetadata{{Name: definitions.Rfc7807ErrorName}}}
+	var out []byte
+	var err error
+	if version == "3.0.0" {
+		out, err = swagen30.GenerateSpec(cfg, defs, models)
+	} else {
+		out, err = swagen31.GenerateSpec(cfg, defs, models)
+	}
+	symxAssume(err == nil)
+	var got vhInfoDoc
+	symxAssert(json.Unmarshal(out, &got) == nil, "C20.info.document-parses")
+	symxCover("C20.info.read-back")
+	symxAssert(got.Openapi == version, "C20.info.declared-version")
+	symxAssert(got.Info.Title == info.Title && got.Info.Description == info.Description && got.Info.Version == info.Version && got.Info.TermsOfService == info.TermsOfService, "C20.info.title-description-version-terms")
+	symxAssert((got.Info.License != nil) == hasLicense && (got.Info.Contact != nil) == hasContact, "C20.info.license-and-contact-present-iff-configured")
+	if hasLicense && got.Info.License != nil {
+		symxAssert(got.Info.License.Name == info.License.Name && got.Info.License.URL == info.License.URL, "C20.info.license")
+	}
+	if hasContact && got.Info.Contact != nil {
+		symxAssert(got.Info.Contact.Name == info.Contact.Name && got.Info.Contact.Email == info.Contact.Email && got.Info.Contact.URL == info.Contact.URL, "C20.info.contact")
+	}
+	symxAssert(len(got.Servers) == 1 && got.Servers[0].URL == base, "C20.info.single-server-is-the-base-url")
+}
+
+func vh_C20_info30_Q() { vhC20Info("3.0.0") }
+func vh_C20_info31_Q() { vhC20Info("3.1.0") }
